@@ -612,6 +612,14 @@ func (p *Program) judge(fr *FuncResult, model map[string]string, oc *outcome, wo
 	if SymRanges == nil {
 		SymRanges = map[string][2]*big.Int{}
 	}
+	ArrayPrefix = ex.ArrayPrefixMap
+	if ArrayPrefix == nil {
+		ArrayPrefix = map[string]arrayPrefix{}
+	}
+	BaseLowerBound = ex.BaseLowerBoundMap
+	if BaseLowerBound == nil {
+		BaseLowerBound = map[string]*Term{}
+	}
 	for _, d := range ex.Defs {
 		CurDefs[d.Name] = d.T
 	}
